@@ -26,16 +26,16 @@ func reasmSeqEngine(prop string, tilt int) *core.Engine[RPlan] {
 	}
 }
 
-func reasmConcEngine() *core.Engine[CPlan] {
+func reasmConcEngine(prop string) *core.Engine[CPlan] {
 	return &core.Engine[CPlan]{
-		Property:        "C11",
+		Property:        prop,
 		Name:            "reasm-conc",
 		Gen:             GenCPlan,
 		Valid:           func(p *CPlan) bool { return p.Valid() },
-		Exec:            ExecCPlan,
+		Exec:            ExecCPlanFor(prop),
 		ProbeNames:      cProbeNames,
 		FaultNames:      cFaultNames,
-		RaceIsViolation: true,
+		RaceIsViolation: prop == "C11",
 		NontrivialRule: "a run is non-trivial when >= 2 tasks have operations, at least one context switch happened while another task was inside a " +
 			"Reassembler call (at an internal yield point) and at least one message was delivered; distinct = distinct hash of the total-order history",
 		Components: map[string][]string{
@@ -112,8 +112,12 @@ func pipelineEngine(prop string) *core.Engine[PPlan] {
 
 // Dispatch runs the worker for the property named in the configuration.
 func Dispatch(t *testing.T, cfg core.Config) {
-	if os.Getenv("VERIF_ENGINE") == "pipeline" {
+	switch os.Getenv("VERIF_ENGINE") {
+	case "pipeline":
 		core.RunWorker(t, cfg, pipelineEngine(cfg.Property))
+		return
+	case "reasm-conc":
+		core.RunWorker(t, cfg, reasmConcEngine(cfg.Property))
 		return
 	}
 	switch cfg.Property {
@@ -128,7 +132,7 @@ func Dispatch(t *testing.T, cfg core.Config) {
 	case "C19":
 		core.RunWorker(t, cfg, reasmSeqEngine("C19", 19))
 	case "C11":
-		core.RunWorker(t, cfg, reasmConcEngine())
+		core.RunWorker(t, cfg, reasmConcEngine("C11"))
 	case "C15":
 		core.RunWorker(t, cfg, coalesceEngine())
 	case "C08":
